@@ -61,27 +61,22 @@ class TypeChecker:
             return
         self.checked_constants.add(con)
 
-        # This can happen halfway the check of a type, keep those marks:
-        marks = self.got_types
         self.check_type(con.typ)
         self.check_expr(con.value)
         con.value = self.do_coerce(con.value, con.typ)
-        self.got_types = marks
 
     def check_type(self, typ, first=True, byname=False):
         """Check a type.
 
         Determine struct offsets and check for recursiveness: got_types
-        contains the structs that are being checked, and a struct that
-        contains one of those contains itself.
+        contains the structs and arrays that are being checked, and a
+        type that contains one of those contains itself.
 
-        The calling function could call this function with first set
-        to clear the marks.
+        This function can be called (with first set) while another type is
+        being checked, for a type in the expression of an array size. The
+        marks stay, as the size of that type is needed to complete the
+        types that are being checked.
         """
-
-        # Reset the marks:
-        if first:
-            self.got_types = set()
 
         # Resolve the type:
         typ = self.context.get_type(typ, not byname)
@@ -109,33 +104,33 @@ class TypeChecker:
             self.check_type(typ.ptype, first=False, byname=True)
         elif isinstance(typ, ast.StructureType):
             self.got_types.add(typ)
-            # Setup offsets of fields. Is this the right place?:
-            # TODO: move this struct offset calculation.
-            offset = 0
-            for struct_member in typ.fields:
-                self.check_type(struct_member.typ, first=False)
-                struct_member.offset = offset
-                offset = offset + self.context.size_of(struct_member.typ)
-            # This struct is complete, it may be used again:
-            self.got_types.remove(typ)
+            try:
+                # Setup offsets of fields. Is this the right place?:
+                # TODO: move this struct offset calculation.
+                offset = 0
+                for struct_member in typ.fields:
+                    self.check_type(struct_member.typ, first=False)
+                    struct_member.offset = offset
+                    offset = offset + self.context.size_of(struct_member.typ)
+            finally:
+                # This struct is complete, it may be used again:
+                self.got_types.remove(typ)
         elif isinstance(typ, ast.ArrayType):
-            # The size is a constant expression, give it its types:
-            if isinstance(typ.size, ast.Expression):
-                # (types inside this expression are checked on their own)
-                marks = self.got_types
-                self.check_expr(typ.size, rvalue=True)
-                self.got_types = marks
-                size_typ = self.context.get_type(typ.size.typ)
-                if not isinstance(size_typ, ast.IntegerType):
-                    raise SemanticError(
-                        f"Array size cannot be of type {size_typ}",
-                        typ.size.loc,
-                    )
-
             # An array cannot contain itself either:
             self.got_types.add(typ)
-            self.check_type(typ.element_type, first=False)
-            self.got_types.remove(typ)
+            try:
+                # The size is a constant expression, give it its types:
+                if isinstance(typ.size, ast.Expression):
+                    self.check_expr(typ.size, rvalue=True)
+                    size_typ = self.context.get_type(typ.size.typ)
+                    if not isinstance(size_typ, ast.IntegerType):
+                        raise SemanticError(
+                            f"Array size cannot be of type {size_typ}",
+                            typ.size.loc,
+                        )
+                self.check_type(typ.element_type, first=False)
+            finally:
+                self.got_types.remove(typ)
         elif isinstance(typ, ast.DefinedType):
             pass
         else:  # pragma: no cover
